@@ -210,3 +210,9 @@ pub proof fn lemma_bcd_rev_msb(k: nat)
         assert(x.reverse() =~= t.reverse().push(bcd_byte(k)));
     }
 }
+
+pub broadcast proof fn lemma_u16_shr8(x: u16)
+    ensures #[trigger] (x >> 8) == x / 256
+{
+    assert((x >> 8) == x / 256) by (bit_vector);
+}
